@@ -110,6 +110,9 @@ def copyAt (b : Bytes) (lo hi : Int) (src : Bytes) : X Bytes :=
     .ok (b.take lo.toNat ++ src.take (hi.toNat - lo.toNat) ++ b.drop (lo.toNat + min (hi.toNat - lo.toNat) src.length))
   else .panic
 
+/-- `fmt.Sprintf("%.Nb", v)` for an unsigned `v` of at most `n` bits: `n` characters `'0'`/`'1'`, most significant first -/
+def bitsN (n : Nat) (v : Nat) : Bytes := (List.range n).map (fun i => if v.testBit (n - 1 - i) then (49 : UInt8) else (48 : UInt8))
+
 /-- `strings.ReplaceAll(s, "<c>", "")` for a one-byte ASCII pattern -/
 def removeByte (s : Bytes) (c : Byte) : Bytes := s.filter (· != c)
 
